@@ -96,6 +96,11 @@ class Atom(t.NamedTuple):
     var: ast.Name  # occurrence of the tested variable (evaluated in `node`)
     text: str
     normal: bool = True  # the tested value is normpath(<loop element>) (or the empty string) on every path
+    at: Node | None = None  # node in which the predicate is evaluated when that is not `node` (flag variable)
+
+    @property
+    def evalnode(self) -> Node:
+        return self.at if self.at is not None else self.node
 
     @property
     def passlabel(self) -> str:
@@ -184,83 +189,285 @@ def or_atoms(e: ast.AST) -> list[ast.AST]:
 
 
 # ---------------------------------------------------------------------
+# emptiness tests and one-level summaries of predicate helpers
+
+
+def empty_test(e: ast.AST) -> tuple[ast.Name, bool] | None:
+    """(Name, truth value of `e` under which that name is known to be the empty string):
+    `x` / `not x` / `x == ""` / `x != ""` / `"" == x`."""
+    if isinstance(e, ast.UnaryOp) and isinstance(e.op, ast.Not):
+        r = empty_test(e.operand)
+        return (r[0], not r[1]) if r is not None else None
+    if isinstance(e, ast.Name):
+        return e, False
+    if isinstance(e, ast.Compare) and len(e.ops) == 1:
+        a, op, b = e.left, e.ops[0], e.comparators[0]
+        if isinstance(a, ast.Constant):
+            a, b = b, a
+        if isinstance(a, ast.Name) and isinstance(b, ast.Constant) and b.value == "":
+            if isinstance(op, ast.Eq):
+                return a, True
+            if isinstance(op, ast.NotEq):
+                return a, False
+    return None
+
+
+def _leaves(e: ast.AST) -> list[ast.AST]:
+    if isinstance(e, ast.BoolOp):
+        out: list[ast.AST] = []
+        for v in e.values:
+            out += _leaves(v)
+        return out
+    if isinstance(e, ast.UnaryOp) and isinstance(e.op, ast.Not):
+        return _leaves(e.operand)
+    return [e]
+
+
+def implied_atoms(unit: Unit, e: ast.AST, v: bool) -> list[tuple[str, tuple[str, ...], ast.Name, str]]:
+    """predicates A on a Name with  A holds  =>  bool(e) == v   (each single A suffices): the disjuncts of an
+    or-chain for v=True, the negated conjuncts of an and-chain for v=False, through `not` (De Morgan)."""
+    if isinstance(e, ast.UnaryOp) and isinstance(e.op, ast.Not):
+        return implied_atoms(unit, e.operand, not v)
+    if isinstance(e, ast.BoolOp):
+        one_suffices = isinstance(e.op, ast.Or) if v else isinstance(e.op, ast.And)
+        if not one_suffices and len(e.values) > 1:
+            return []
+        out = []
+        for x in e.values:
+            out += implied_atoms(unit, x, v)
+        return out
+    p = parse_atom(unit, e)
+    if p is not None and (p[2] == "T") == v:
+        return [(p[0], p[1], p[3], norm(e))]
+    return []
+
+
+def _loop_altsep(hu: Unit, tn: Node) -> tuple[str, tuple[str, ...], str, ast.Name, ast.For] | None:
+    """`<sep> in <name>` evaluated inside `for <sep> in <alternative separators>`: the explicit-loop spelling of
+    any(sep in name for sep in _os_alt_seps)."""
+    e = tn.ast
+    if not (isinstance(e, ast.Compare) and len(e.ops) == 1 and isinstance(e.ops[0], (ast.In, ast.NotIn)) and isinstance(e.left, ast.Name) and isinstance(e.comparators[0], ast.Name)):
+        return None
+    loop = astq.enclosing(e, (ast.For, ast.AsyncFor, ast.While))
+    if not isinstance(loop, ast.For) or not astq.is_name(loop.target, e.left.id):
+        return None
+    head = hu.cfg.node_of(loop)
+    fqi = hu.resolve(loop.iter)
+    if head is None or not fqi or not _is_alt_seps(hu.repo, fqi):
+        return None
+    defs = hu.rd.reaching(tn, e.left.id)
+    if len(defs) != 1 or next(iter(defs)).kind != "for" or next(iter(defs)).node is not head:
+        return None
+    return "altsep", (fqi,), "T" if isinstance(e.ops[0], ast.In) else "F", e.comparators[0], loop
+
+
+def helper_atoms(hu: Unit, param: str) -> tuple[list[tuple[bool, str, tuple[str, ...], str]], bool]:
+    """summary of a predicate helper in its parameter `param`:  [(v, kind, consts, text)]  meaning
+    `<predicate kind/consts> holds for the argument  =>  the helper returns a value of truthiness v`; and whether
+    every test on the parameter was interpreted.  Decided on the helper's CFG, so `return a or b`, sequential
+    `if a: return True`, an explicit loop over the alternative separators and the negated spelling
+    (`return not (a or b)`, `if a: return False`) give the same summary:
+      * the deciding edge leads only to constant returns of truthiness v, and
+      * every path from the entry to the exit that avoids those returns passes the deciding test
+        (for a test inside the separator loop: every iteration reaches it, and the loop head is passed)."""
+    cfg, rd = hu.cfg, hu.rd
+    rets = [(r, cfg.node_of(r)) for r in astq.returns_of(hu.node)]
+    rets = [(r, n) for r, n in rets if n is not None]
+
+    def const_truth(r: ast.Return) -> bool | None:
+        if r.value is None:
+            return False
+        if isinstance(r.value, ast.Constant):
+            return bool(r.value.value)
+        return None
+
+    def param_only(nm: ast.Name, node: Node) -> bool:
+        return nm.id == param and bool(rd.reaching(node, param)) and all(d.kind == "param" for d in rd.reaching(node, param))
+
+    def mentions(e: ast.AST) -> bool:
+        return any(isinstance(x, ast.Name) and x.id == param for x in ast.walk(e))
+
+    out: list[tuple[bool, str, tuple[str, ...], str]] = []
+    complete = True
+    interpreted: set[int] = set()
+    for v in (True, False):
+        R = [n for r, n in rets if const_truth(r) is v]
+        bad = (cfg.exit.id, cfg.raise_exit.id)
+
+        def closed(starts: list[Node], avoid: list[Node], also: tuple[int, ...] = ()) -> bool:
+            starts = [s for s in starts if s not in avoid]
+            if not starts:
+                return True
+            r = cfg.reach(starts, avoid_nodes=avoid)
+            return not any(b in r for b in bad + also)
+
+        for tn in cfg.nodes:
+            if tn.kind != "test":
+                continue
+            q = parse_atom(hu, tn.ast)
+            loop = None
+            if q is None:
+                la = _loop_altsep(hu, tn)
+                if la is not None:
+                    q, loop = la[:4], la[4]
+            if q is None or not param_only(q[3], tn):
+                continue
+            interpreted.add(tn.id)
+            kind, consts, lab, _var = q
+            if not R or not closed(cfg.succ(tn, lab), R):
+                continue
+            if loop is not None:
+                head = cfg.node_of(loop)
+                ok = head is not None and closed(cfg.succ(head, "T"), [tn] + R, (head.id,)) and closed([cfg.entry], [head] + R)
+            else:
+                ok = closed([cfg.entry], [tn] + R)
+            if ok:
+                out.append((v, kind, consts, norm(tn.ast)))
+        for r, rn in rets:
+            if const_truth(r) is not None:
+                continue
+            if not closed([cfg.entry], [rn] + R):
+                continue
+            for kind, consts, var, text in implied_atoms(hu, r.value, v):
+                if param_only(var, rn):
+                    out.append((v, kind, consts, text))
+    # completeness: every condition that reads the parameter was understood
+    for tn in cfg.nodes:
+        if tn.kind == "test" and tn.id not in interpreted and mentions(tn.ast):
+            complete = False
+    for r, rn in rets:
+        if const_truth(r) is None:
+            for leaf in _leaves(r.value):
+                if mentions(leaf) and parse_atom(hu, leaf) is None:
+                    complete = False
+    return out, complete
+
+
+# ---------------------------------------------------------------------
 # provenance of sink arguments
 
 
-class Prov:
-    """SAFE = built only from constants, trusted names (configuration, closure variables of the enclosing
-    factory) and results of safe_join(<SAFE directory>, ...); the request-derived names of the unit are not SAFE."""
+JOIN = {"posixpath.join", "os.path.join"}
+IDENTITY = {"os.fspath"}
+T_, J_, X_ = "trusted", "safejoined", "unsafe"
 
-    def __init__(self, unit: Unit, is_safe_join: t.Callable[[ast.Call], bool]):
+
+class Prov:
+    """provenance of a sink argument:
+    trusted    = built only from constants and trusted names (configuration, closure variables of the factory);
+    safejoined = a result of safe_join(<trusted or safejoined base>, ...) that is still *intact*: it was only copied,
+                 selected (conditional expression / `or`), or joined with os.path.join / posixpath.join to other
+                 trusted or safejoined operands.  Any other operation on it (a call such as unquote / normpath /
+                 expandvars, a method call, concatenation, formatting, slicing) happens AFTER the containment check
+                 and may re-open the escape, so the value loses the provenance;
+    unsafe     = everything else, in particular the request-derived names of the unit.
+    A filesystem call that received a safe argument returns a handle of a contained file (trusted)."""
+
+    def __init__(self, unit: Unit, is_safe_join: t.Callable[[ast.Call], bool], is_sink: t.Callable[[ast.Call], bool] | None = None):
         self.u = unit
         self.is_safe_join = is_safe_join
+        self.is_sink = is_sink or (lambda c: False)
 
     def safe(self, e: ast.AST | None, node: Node | None, depth: int = 0) -> tuple[bool, str]:
+        k, why = self.kind(e, node, depth)
+        return k != X_, why
+
+    def kind(self, e: ast.AST | None, node: Node | None, depth: int = 0, value: bool = True) -> tuple[str, str]:
+        """value=False: the expression is only evaluated (a condition), its value does not flow on."""
         if e is None:
-            return True, ""
+            return T_, ""
         if depth > 8:
-            return False, "definition chain too deep"
+            return X_, "definition chain too deep"
         if isinstance(e, ast.Constant):
-            return True, ""
+            return T_, ""
         if isinstance(e, ast.Call) and self.is_safe_join(e):
             if not e.args or isinstance(e.args[0], ast.Starred):
-                return False, f"`{norm(e)}` has no positional base directory"
-            ok, why = self.safe(e.args[0], node, depth + 1)
-            return ok, (f"base directory of `{norm(e)}`: {why}" if not ok else "")
+                return X_, f"`{norm(e)}` has no positional base directory"
+            k, why = self.kind(e.args[0], node, depth + 1)
+            return (X_, f"base directory of `{norm(e)}`: {why}") if k == X_ else (J_, "")
         if isinstance(e, ast.Name):
             return self._name(e, node, depth)
         if isinstance(e, ast.Lambda):
-            return self.safe(e.body, node, depth + 1)
+            return self.kind(e.body, node, depth + 1, value)
+        if isinstance(e, ast.NamedExpr):
+            return self.kind(e.value, node, depth, value)
+        kinds: list[str] = []
         for ch in ast.iter_child_nodes(e):
             if isinstance(ch, (ast.expr_context, ast.operator, ast.cmpop, ast.boolop, ast.unaryop)):
                 continue
             if isinstance(ch, (ast.comprehension, ast.keyword)):
                 for sub in ast.iter_child_nodes(ch):
                     if isinstance(sub, ast.expr) and not (isinstance(sub, ast.Name) and isinstance(sub.ctx, ast.Store)):
-                        ok, why = self.safe(sub, node, depth)
-                        if not ok:
-                            return ok, why
+                        k, why = self.kind(sub, node, depth, value)
+                        if k == X_:
+                            return k, why
+                        kinds.append(k)
                 continue
-            ok, why = self.safe(ch, node, depth)
-            if not ok:
-                return ok, why
-        return True, ""
+            k, why = self.kind(ch, node, depth, value and not (isinstance(e, ast.IfExp) and ch is e.test))
+            if k == X_:
+                return k, why
+            kinds.append(k)
+        if not value or J_ not in kinds:
+            return T_, ""
+        if isinstance(e, ast.Call) and self.is_sink(e):
+            return T_, ""  # handle of a file opened through a checked path
+        if self._keeps(e):
+            return J_, ""
+        return X_, f"a safe_join result passes through `{norm(e)[:70]}` after the containment check (only a copy, a selection or os.path.join with trusted operands keeps the guarantee)"
 
-    def _name(self, e: ast.Name, node: Node | None, depth: int) -> tuple[bool, str]:
+    def _keeps(self, e: ast.AST) -> bool:
+        if isinstance(e, (ast.IfExp, ast.BoolOp, ast.Starred)):
+            return True
+        if isinstance(e, ast.Call) and not e.keywords:
+            fq = self.u.resolve(e.func)
+            return fq in JOIN or (fq in IDENTITY and len(e.args) == 1)
+        return False
+
+    def _name(self, e: ast.Name, node: Node | None, depth: int) -> tuple[str, str]:
         u = self.u
         if u.lambda_param(e):
-            return False, f"`{e.id}` is the parameter of a callable invoked with request data"
+            return X_, f"`{e.id}` is the parameter of a callable invoked with request data"
         g = bound_in_enclosing_comp(e, u.node)
         if g is not None:
-            return self.safe(g.iter, node, depth + 1)
+            return self.kind(g.iter, node, depth + 1)
         defs = u.rd.reaching(node, e.id) if node is not None else frozenset()
         if not defs:
             if e.id in u.untrusted:
-                return False, f"`{e.id}` is request-derived"
-            return True, ""  # closure variable of the enclosing factory / module name
+                return X_, f"`{e.id}` is request-derived"
+            return T_, ""  # closure variable of the enclosing factory / module name
+        res = T_
         for d in sorted(defs, key=lambda d: getattr(d.stmt, "lineno", 0)):
-            ok, why = self._def(d, depth)
-            if not ok:
-                return False, why
-        return True, ""
+            k, why = self._def(d, depth)
+            if k == X_:
+                return k, why
+            if k == J_:
+                res = J_
+        return res, ""
 
-    def _def(self, d: Def, depth: int) -> tuple[bool, str]:
+    def _def(self, d: Def, depth: int) -> tuple[str, str]:
         if d.kind == "param":
             if d.name in self.u.untrusted:
-                return False, f"`{d.name}` is the request-derived parameter"
-            return True, ""
+                return X_, f"`{d.name}` is the request-derived parameter"
+            return T_, ""
         if d.kind in ("import", "def", "except", "del"):
-            return True, ""
+            return T_, ""
         if d.value is None:
-            return False, f"`{d.name}` bound by an uninterpreted {d.kind}"
-        ok, why = self.safe(d.value, d.node, depth + 1)
-        if ok and d.kind == "aug" and d.node is not None:
+            return X_, f"`{d.name}` bound by an uninterpreted {d.kind}"
+        v = d.value
+        if d.kind == "unpack" and isinstance(v, (ast.Tuple, ast.List)) and d.index is not None and d.index < len(v.elts) and not any(isinstance(x, ast.Starred) for x in v.elts):
+            v = v.elts[d.index]
+        k, why = self.kind(v, d.node, depth + 1)
+        if k != X_ and d.kind == "aug" and d.node is not None:
             for p in self.u.rd.reaching(d.node, d.name):
                 if p is d:
                     continue
-                ok, why = self._def(p, depth + 1)
-                if not ok:
+                pk, why = self._def(p, depth + 1)
+                if pk == X_:
+                    k = X_
                     break
-        if not ok:
-            return False, f"`{d.name}` <- `{norm(d.value)[:70]}`: {why}" if why and not why.startswith(f"`{d.name}` <-") else (why or f"`{d.name}` <- `{norm(d.value)[:70]}`")
-        return True, ""
+                if J_ in (pk, k):
+                    k, why = X_, "a safe_join result is modified in place after the containment check"
+                    break
+        if k == X_:
+            return X_, f"`{d.name}` <- `{norm(d.value)[:70]}`: {why}" if why and not why.startswith(f"`{d.name}` <-") else (why or f"`{d.name}` <- `{norm(d.value)[:70]}`")
+        return k, ""
